@@ -178,20 +178,26 @@ def build_model():
 # --------------------------------------------------------------------------- implementation side
 
 def build_impl(profile="release"):
-    """Rebuild harness/implrun against /repo's current working tree, hooks enabled."""
+    """Rebuild harness/implrun against the current working tree of /repo (or $VERIF_REPO, used only to
+    try the checks on scratch worktrees), hooks enabled."""
     h = VERIF / "harness"
+    repo = Path(os.environ.get("VERIF_REPO", str(REPO)))
+    toml = (h / "Cargo.toml.in").read_text().replace("@REPO@", str(repo))
+    if not (h / "Cargo.toml").exists() or (h / "Cargo.toml").read_text() != toml:
+        (h / "Cargo.toml").write_text(toml)
     lock = h / "Cargo.lock"
     if not lock.exists():
-        lock.write_text((REPO / "Cargo.lock").read_text())
+        lock.write_text((repo / "Cargo.lock").read_text())
+    tdir = BUILD / ("cargo" if repo == REPO else "cargo-" + hashlib.md5(str(repo).encode()).hexdigest()[:8])
     flag = "--release" if profile == "release" else ""
-    env = {"CARGO_TARGET_DIR": str(BUILD / "cargo"), "RUSTFLAGS": f"--cfg {GUARD}", "CARGO_NET_OFFLINE": "true"}
+    env = {"CARGO_TARGET_DIR": str(tdir), "RUSTFLAGS": f"--cfg {GUARD}", "CARGO_NET_OFFLINE": "true"}
     rc, out = sh(f"cargo build {flag} --offline", cwd=h, env=env, timeout=3000)
     if rc != 0 and "Cargo.lock" in out:
-        lock.write_text((REPO / "Cargo.lock").read_text())
+        lock.write_text((repo / "Cargo.lock").read_text())
         rc, out = sh(f"cargo build {flag} --offline", cwd=h, env=env, timeout=3000)
     if rc != 0:
-        raise MachineryError("implrun does not build against /repo's working tree:\n" + out[-4000:])
-    return BUILD / "cargo" / ("release" if profile == "release" else "debug") / "implrun"
+        raise MachineryError("implrun does not build against the repository's working tree:\n" + out[-4000:])
+    return tdir / ("release" if profile == "release" else "debug") / "implrun"
 
 
 def run_family(binary, family, lines, shards=16, timeout=1800, env=None):
